@@ -1284,7 +1284,7 @@ def tear_sweep(trace, probes, stride):
         return None, 0
     text, extents, kept, footer, _ = reference_write(base['fmt'], recs, base['write'].get('clock', [60]))
     n = len(text.encode())
-    if n > 12000:
+    if n > 8000:
         return None, 0
     if stride == 1 and n > 4000:
         stride = 7           # every byte only for files up to 4 kB
